@@ -497,7 +497,8 @@ impl GRLQueryParser {
         let mut in_string = false;
         let mut escape_next = false;
 
-        for (i, ch) in input.chars().enumerate() {
+        // byte offsets (the caller slices `input` at the returned position)
+        for (i, ch) in input.char_indices() {
             if escape_next {
                 escape_next = false;
                 continue;
@@ -661,7 +662,8 @@ fn find_matching_brace(input: &str) -> Option<usize> {
     let mut in_string = false;
     let mut escape_next = false;
 
-    for (i, ch) in input.chars().enumerate() {
+    // byte offsets (the caller slices the query text at the returned position)
+    for (i, ch) in input.char_indices() {
         if escape_next {
             escape_next = false;
             continue;
